@@ -3,20 +3,31 @@
 
 Mechanism (shaped like the code as it is now):
 
+* `Spectrum.get_binary_data`: `fp.seek(offset)`, `fp.read(length)`, `np.frombuffer(buffer, dtype)`
+  (`getBinaryData`): the bytes `[offset, offset + length)` of the `.ibd` file (fewer at the end of
+  the file), cut into elements of the dtype's width, each element the bit pattern of its bytes
+  (native = little-endian); ValueError when the buffer is not a whole number of elements.  IEEE
+  patterns are decoded to exact rationals by `ieeeVal`.
+* `ImzML.spectra` is a dict keyed by `(x, y)`: a later spectrum with the same position replaces
+  the value and keeps the place of the first one in the iteration order (`spectraDict`).
 * `extract_masses`: window edges `m ∓ w/2` (`w = m·ppm/10⁶` or the absolute width) are flattened to
   `[lo₀, hi₀, lo₁, hi₁, …]`, turned into indices by `np.searchsorted(mz, ·)`, the intensities get a
   trailing zero (`np.append(it, 0)`), `np.add.reduceat` makes segment sums, `[::2]` keeps the even
   ones and `sums[idx[::2] >= idx[1::2]] = 0` zeroes the empty windows; the result is stored at
-  `data[y-1, x-1]` of a NaN canvas of shape `(Y, X, N)`.
+  `data[y-1, x-1]` of a NaN canvas of shape `(Y, X, N)`.  The subscripts are NumPy subscripts:
+  `-1` (position 0) is the last row/column, a subscript outside `[-n, n)` raises IndexError
+  (`pyIndex`); a negative image size raises ValueError (`shapeOf`).
 * `extract_tic`: stored TIC, else `np.sum(intensities)`, same placement.
-* `mass_range`: running `min` of the first and `max` of the last m/z of every spectrum.
+* `mass_range`: running `min` of the first and `max` of the last m/z of every spectrum in the dict
+  (IndexError on a spectrum without peaks).
 * `binned_masses`: `bins = arange(min, max + w, w)`, `searchsorted`, clip of the indices to `n-1`,
   `reduceat` over the *unpadded* intensities (this is the unrepaired mechanism, see
   `known_findings.json`, id `C05-binned-masses-empty-bins`).
 
-Specification: `windowSum mz it lo hi = Σ {it_p | lo ≤ mz_p < hi}`.
+Specification: `windowSum mz it lo hi = Σ {it_p | lo ≤ mz_p < hi}`; the pixel `[r][c]` belongs to
+the spectrum recorded at position `(c+1, r+1)` (`specAt`).
 
-Values are exact rationals; NaN pixels are `none`.
+Values are exact rationals; NaN pixels are `none`; a call that raises is `none` at the outer level.
 -/
 namespace Pew.Imzml
 
@@ -30,7 +41,8 @@ def sliceSum (a : List Rat) (i j : Nat) : Rat := ((a.drop i).take (j - i)).sum
 
 /-- `np.add.reduceat(a, idx)`: entry `k` is `a[idx[k]:idx[k+1]].sum()` when `idx[k] < idx[k+1]`,
 else the single element `a[idx[k]]`; the last entry sums to the end of `a`.
-(NumPy raises for an index `≥ len(a)`; the callers below never produce one.) -/
+(NumPy raises for an index `≥ len(a)`; with as many intensities as m/z values the callers below
+never produce one.) -/
 def reduceat (a : List Rat) : List Nat → List Rat
   | [] => []
   | [i] => [(a.drop i).sum]
@@ -58,6 +70,78 @@ def incrB : List Rat → Bool
   | [] => true
   | [_] => true
   | a :: b :: r => decide (a < b) && incrB (b :: r)
+
+/-! ## the external binary (`Spectrum.get_binary_data`, imzml.py 232-259) -/
+
+/-- the element types of `ParamGroup.type_names` -/
+inductive DType
+  | u8 | u16 | u32 | u64 | f32 | f64
+  deriving Repr, DecidableEq
+
+/-- `dtype.itemsize` -/
+def DType.width : DType → Nat
+  | .u8 => 1
+  | .u16 => 2
+  | .u32 => 4
+  | .u64 => 8
+  | .f32 => 4
+  | .f64 => 8
+
+inductive ByteOrder
+  | little | big
+  deriving Repr, DecidableEq
+
+/-- `fp.seek(off); fp.read(len)`: at most `len` bytes starting at `off`; fewer when the file ends
+first, none when `off` is at or beyond the end -/
+def readBytes (ibd : List UInt8) (off len : Nat) : List UInt8 := (ibd.drop off).take len
+
+/-- unsigned value of a little-endian byte string -/
+def leNat : List UInt8 → Nat
+  | [] => 0
+  | b :: r => b.toNat + 256 * leNat r
+
+/-- the bit pattern of one element -/
+def bitsOf (bo : ByteOrder) (bs : List UInt8) : Nat :=
+  match bo with
+  | .little => leNat bs
+  | .big => leNat bs.reverse
+
+/-- `np.frombuffer(buffer, dtype)` for an element width `w`: ValueError (`none`) when the buffer is
+not a whole number of elements; element `i` is the bit pattern of the bytes `[i·w, (i+1)·w)` -/
+def frombuffer (bo : ByteOrder) (w : Nat) (buf : List UInt8) : Option (List Nat) :=
+  if w = 0 ∨ buf.length % w ≠ 0 then none
+  else some ((List.range (buf.length / w)).map (fun i => bitsOf bo ((buf.drop (i * w)).take w)))
+
+/-- `Spectrum.get_binary_data`: offset and (encoded) length in bytes, as written in the imzML -/
+def getBinaryData (bo : ByteOrder) (ibd : List UInt8) (off len : Nat) (dt : DType) : Option (List Nat) :=
+  frombuffer bo dt.width (readBytes ibd off len)
+
+/-- `2^k` for an integer `k` -/
+def pow2 (k : Int) : Rat := if 0 ≤ k then (2 : Rat) ^ k.toNat else 1 / (2 : Rat) ^ (-k).toNat
+
+/-- the value of an IEEE-754 binary pattern with `eb` exponent and `mb` fraction bits;
+`none` for NaN and the infinities -/
+def ieeeVal (eb mb : Nat) (bits : Nat) : Option Rat :=
+  let m := bits % 2 ^ mb
+  let e := (bits / 2 ^ mb) % 2 ^ eb
+  let neg := (bits / 2 ^ (mb + eb)) % 2 = 1
+  let bias : Int := 2 ^ (eb - 1) - 1
+  if e = 2 ^ eb - 1 then none
+  else
+    let mag : Rat :=
+      if e = 0 then (m : Rat) * pow2 (1 - bias - mb)
+      else ((2 ^ mb + m : Nat) : Rat) * pow2 ((e : Int) - bias - mb)
+    some (if neg then -mag else mag)
+
+/-- the number an element's bit pattern stands for -/
+def valueOf : DType → Nat → Option Rat
+  | .f32, b => ieeeVal 8 23 b
+  | .f64, b => ieeeVal 11 52 b
+  | _, b => some (b : Rat)
+
+/-- an array as the rest of the code sees it: `none` when the read raises or an element is not finite -/
+def readValues (bo : ByteOrder) (ibd : List UInt8) (off len : Nat) (dt : DType) : Option (List Rat) :=
+  (getBinaryData bo ibd off len dt).bind (fun bits => bits.mapM (valueOf dt))
 
 /-! ## window edges -/
 
@@ -106,15 +190,30 @@ def clip (n : Nat) (idx : List Nat) : List Nat := idx.map (fun i => if i > n - 1
 def extractSpectrumOld (mz it : List Rat) (wins : List (Rat × Rat)) : List Rat :=
   evens (reduceat it (clip it.length ((flatten wins).map (ssLeft mz))))
 
-/-! ## the image -/
+/-! ## the parsed file -/
 
+/-- one `<spectrum>`: position as `int(value)` of the position cvParams (any integer), the stored
+TIC, and the two arrays as read from the external binary -/
 structure Spectrum where
-  x : Nat
-  y : Nat
+  x : Int
+  y : Int
   tic : Option Rat
   mz : List Rat
   it : List Rat
-  deriving Repr
+  deriving Repr, DecidableEq
+
+/-- same dict key `(x, y)` -/
+def samePos (s t : Spectrum) : Bool := s.x == t.x && s.y == t.y
+
+/-- `spectra[(s.x, s.y)] = s` on a dict kept as the list of its values in iteration order: an
+existing key keeps its place and gets the new value, a new key goes to the end -/
+def dictSet (d : List Spectrum) (s : Spectrum) : List Spectrum :=
+  if d.any (samePos s) then d.map (fun t => if samePos s t then s else t) else d ++ [s]
+
+/-- `ImzML.spectra.values()` for the `<spectrum>` elements of a file, in file order -/
+def spectraDict (file : List Spectrum) : List Spectrum := file.foldl dictSet []
+
+/-! ## the image -/
 
 /-- a canvas of pixels; `none` is NaN -/
 abbrev Canvas (β : Type) := Nat → Nat → Option β
@@ -126,58 +225,105 @@ def blank {β} : Canvas β := fun _ _ => none
 def Canvas.set {β} (img : Canvas β) (r c : Nat) (v : β) : Canvas β :=
   fun r' c' => if r' = r ∧ c' = c then some v else img r' c'
 
-/-- the loop `for spectra in self.spectra.values(): data[y - 1, x - 1] = f(spectra)` -/
-def place {β} (f : Spectrum → β) (specs : List Spectrum) : Canvas β :=
-  specs.foldl (fun img s => img.set (s.y - 1) (s.x - 1) (f s)) blank
+/-- a subscript `i` into an axis of length `n`, as Python and NumPy normalise it: `0 ≤ i < n` is
+itself, `-n ≤ i < 0` counts from the end, anything else is an IndexError (`none`) -/
+def pyIndex (n : Nat) (i : Int) : Option Nat :=
+  if 0 ≤ i then (if i < n then some i.toNat else none)
+  else if -(n : Int) ≤ i then some (i + n).toNat else none
 
-def maxList : List Nat → Nat
+/-- one pass of `data[y - 1, x - 1] = f(spectra)` on a canvas of shape `(Y, X) = shape` -/
+def placeStep {β} (shape : Nat × Nat) (f : Spectrum → β) (img : Option (Canvas β)) (s : Spectrum) :
+    Option (Canvas β) :=
+  match img, pyIndex shape.1 (s.y - 1), pyIndex shape.2 (s.x - 1) with
+  | some img, some r, some c => some (img.set r c (f s))
+  | _, _, _ => none
+
+/-- the loop `for spectra in self.spectra.values(): data[y - 1, x - 1] = f(spectra)`;
+`none` when a subscript is out of bounds -/
+def place {β} (shape : Nat × Nat) (f : Spectrum → β) (d : List Spectrum) : Option (Canvas β) :=
+  d.foldl (placeStep shape f) (some blank)
+
+def maxInt : List Int → Int
   | [] => 0
   | x :: xs => xs.foldl max x
 
-/-- `ImzML.image_size` : `(X, Y)`; the maximum position when the scan settings have no size -/
-def imageSize (size : Option (Nat × Nat)) (specs : List Spectrum) : Nat × Nat :=
+/-- `ImzML.image_size` : `(X, Y)`; the maximum position when the scan settings have no size
+(IndexError, `none`, when there is no spectrum either) -/
+def imageSize (size : Option (Int × Int)) (d : List Spectrum) : Option (Int × Int) :=
   match size with
-  | some s => s
-  | none => (maxList (specs.map (·.x)), maxList (specs.map (·.y)))
+  | some s => some s
+  | none => if d.isEmpty then none else some (maxInt (d.map (·.x)), maxInt (d.map (·.y)))
+
+/-- the shape `(Y, X)` of `np.full((image_size[1], image_size[0], …), nan)`; ValueError (`none`)
+for a negative dimension -/
+def shapeOf (size : Int × Int) : Option (Nat × Nat) :=
+  if 0 ≤ size.1 ∧ 0 ≤ size.2 then some (size.2.toNat, size.1.toNat) else none
+
+/-- an image method: size, canvas, placement loop.  Result: shape `(Y, X)` and pixels -/
+def image {β} (size : Option (Int × Int)) (f : Spectrum → β) (d : List Spectrum) :
+    Option ((Nat × Nat) × Canvas β) :=
+  match (imageSize size d).bind shapeOf with
+  | none => none
+  | some shape => (place shape f d).map (fun img => (shape, img))
 
 /-- row-major table of a canvas of shape `(Y, X)` -/
-def tabulate {β} (size : Nat × Nat) (img : Canvas β) : List (List (Option β)) :=
-  (List.range size.2).map (fun r => (List.range size.1).map (fun c => img r c))
+def tabulate {β} (shape : Nat × Nat) (img : Canvas β) : List (List (Option β)) :=
+  (List.range shape.1).map (fun r => (List.range shape.2).map (fun c => img r c))
 
-def extractImage (specs : List Spectrum) (masses : List Rat) (w : Width) : Canvas (List Rat) :=
-  place (fun s => extractSpectrum s.mz s.it (windows masses w)) specs
+/-- `extract_masses` on the dict values `d` -/
+def extractImage (size : Option (Int × Int)) (d : List Spectrum) (masses : List Rat) (w : Width) :
+    Option ((Nat × Nat) × Canvas (List Rat)) :=
+  image size (fun s => extractSpectrum s.mz s.it (windows masses w)) d
 
 def ticOf (s : Spectrum) : Rat :=
   match s.tic with
   | none => s.it.sum
   | some t => t
 
-def ticImage (specs : List Spectrum) : Canvas Rat := place ticOf specs
+/-- `extract_tic` on the dict values `d` -/
+def ticImage (size : Option (Int × Int)) (d : List Spectrum) : Option ((Nat × Nat) × Canvas Rat) :=
+  image size ticOf d
 
-/-- specification of placement: the pixel `[r][c]` belongs to the last spectrum recorded at
-position `(c+1, r+1)` (the parser's dictionary keeps one spectrum per position) -/
-def lastAt (specs : List Spectrum) (r c : Nat) : Option Spectrum :=
-  specs.reverse.find? (fun s => s.y - 1 = r ∧ s.x - 1 = c)
+/-- what the placement loop does, pixel by pixel: `[r][c]` belongs to the last spectrum of the
+loop whose two subscripts normalise to `(r, c)` -/
+def lastAt (shape : Nat × Nat) (d : List Spectrum) (r c : Nat) : Option Spectrum :=
+  d.reverse.find? (fun s => pyIndex shape.1 (s.y - 1) == some r && pyIndex shape.2 (s.x - 1) == some c)
 
-def specImage {β} (f : Spectrum → β) (specs : List Spectrum) : Canvas β :=
-  fun r c => (lastAt specs r c).map f
+/-- specification of placement: the pixel `[r][c]` belongs to the (last) spectrum recorded at
+position `(x, y) = (c+1, r+1)` -/
+def specAt (l : List Spectrum) (r c : Nat) : Option Spectrum :=
+  l.reverse.find? (fun s => s.y == (r : Int) + 1 && s.x == (c : Int) + 1)
+
+/-- every recorded position is 1-based and inside the canvas of shape `(Y, X)` -/
+def InDomain (shape : Nat × Nat) (l : List Spectrum) : Prop :=
+  ∀ s ∈ l, 1 ≤ s.x ∧ s.x ≤ shape.2 ∧ 1 ≤ s.y ∧ s.y ≤ shape.1
+
+def inDomainB (shape : Nat × Nat) (l : List Spectrum) : Bool :=
+  l.all (fun s => decide (1 ≤ s.x) && decide (s.x ≤ shape.2) && decide (1 ≤ s.y) && decide (s.y ≤ shape.1))
+
+/-- no position is recorded twice ("any subset of pixels present") -/
+def distinctB : List Spectrum → Bool
+  | [] => true
+  | s :: r => !(r.any (samePos s)) && distinctB r
 
 /-! ## mass range -/
 
-/-- `low, high = inf, -inf; for s: low = min(low, mz[0]); high = max(high, mz[-1])`;
-`none` stands for the infinite start values -/
-def rangeStep (lh : Option Rat × Option Rat) (s : Spectrum) : Option Rat × Option Rat :=
-  (match lh.1, s.mz.head? with
-    | none, m => m
-    | some l, some m => some (if m < l then m else l)
-    | some l, none => some l,
-   match lh.2, s.mz.getLast? with
-    | none, m => m
-    | some h, some m => some (if h < m then m else h)
-    | some h, none => some h)
+/-- `low = min(low, mz[0]); high = max(high, mz[-1])`; the inner `none` stands for the infinite
+start values, the outer `none` for the IndexError on an empty m/z array -/
+def rangeStep (lh : Option (Option Rat × Option Rat)) (s : Spectrum) : Option (Option Rat × Option Rat) :=
+  match lh, s.mz.head?, s.mz.getLast? with
+  | some (l, h), some a, some b =>
+    some (some (match l with
+                | none => a
+                | some l => if a < l then a else l),
+          some (match h with
+                | none => b
+                | some h => if h < b then b else h))
+  | _, _, _ => none
 
-def massRange (specs : List Spectrum) : Option Rat × Option Rat :=
-  specs.foldl rangeStep (none, none)
+/-- `mass_range` on the dict values `d` -/
+def massRange (d : List Spectrum) : Option (Option Rat × Option Rat) :=
+  d.foldl rangeStep (some (none, none))
 
 /-! ## binning -/
 
@@ -195,7 +341,8 @@ def rightEdges (bins : List Rat) (w : Rat) : List Rat :=
   | none => []
   | some l => bins.drop 1 ++ [l + w]
 
-/-- specification: bin `k` holds the peaks in `[bins[k], bins[k] + w)` -/
+/-- specification: bin `k` holds the peaks in `[bins[k], bins[k+1])`, the last bin those in
+`[bins[last], bins[last] + w)` (for edges stepping by `w` every bin is `[bins[k], bins[k] + w)`) -/
 def binSpec (mz it : List Rat) (bins : List Rat) (w : Rat) : List Rat :=
   List.zipWith (fun lo hi => windowSum mz it lo hi) bins (rightEdges bins w)
 
@@ -208,7 +355,18 @@ def denseIdx (n : Nat) : List Nat → Bool
 
 def dense (mz : List Rat) (bins : List Rat) : Bool := denseIdx mz.length (bins.map (ssLeft mz))
 
-def binImage (specs : List Spectrum) (bins : List Rat) : Canvas (List Rat) :=
-  place (fun s => binSpectrum s.mz s.it bins) specs
+/-- the bin edges of `binned_masses`: `np.arange(mass_min, mass_max + w, w)`; `none` when
+`mass_range` raises or returns its infinite start values -/
+def binEdges (d : List Spectrum) (w : Rat) : Option (List Rat) :=
+  match massRange d with
+  | some (some lo, some hi) => some (arange lo (hi + w) w)
+  | _ => none
+
+/-- `binned_masses` on the dict values `d`: the edges, the shape and the pixels -/
+def binImage (size : Option (Int × Int)) (d : List Spectrum) (w : Rat) :
+    Option (List Rat × (Nat × Nat) × Canvas (List Rat)) :=
+  match binEdges d w with
+  | none => none
+  | some bins => (image size (fun s => binSpectrum s.mz s.it bins) d).map (fun r => (bins, r.1, r.2))
 
 end Pew.Imzml
